@@ -139,6 +139,8 @@ def jitter(rng: random.Random, name: str, value):
     if isinstance(value, bool) or value is None or isinstance(value, (str, dict)):
         return value
     if isinstance(value, int):
+        if 0 <= value <= 3 and name not in ("population_size", "max_cycles"):
+            return rng.choice([0, 1, 2, 3, 4])        # small integers are usually strategy selectors / counts: try them all
         return max(1, value + rng.choice([-1, 0, 0, 1, 2]))
     if isinstance(value, float):
         return value * rng.choice([0.5, 0.9, 1.0, 1.0, 1.1, 1.5])
